@@ -179,8 +179,8 @@ SPEC = {
     'browse_from_continuation_point': ('r', '''        requires session_ok(*old(session)),
         ensures session_ok(*final(session)),
             // an unknown (or used, or released, or expired) continuation point is refused and nothing changes
-            r.status_code != StatusCode::Good ==> r.status_code == StatusCode::BadContinuationPointInvalid
-                && r.references is None && r.continuation_point.value is None
+            // (with which Bad status it is refused is not part of the property)
+            r.status_code != StatusCode::Good ==> r.references is None && r.continuation_point.value is None
                 && final(session).browse_continuation_points@ == old(session).browse_continuation_points@,
             // otherwise the answer is the next page of the list the point recorded, and the point itself is used up
             r.status_code == StatusCode::Good ==> exists|i: int| 0 <= i < old(session).browse_continuation_points@.len() && ({
